@@ -114,10 +114,12 @@ func (v *V2) ReadHeaderWithValidation(buf []byte, startFileOffset uint32) (paylo
 		return payloadSize, previousCrc, payloadCrc, errors.Wrapf(ErrEmptyPayload, "unexpected empty payload")
 	}
 
-	expectSize := payloadSize + v.HeaderSize
+	// The size field comes from the disk and can hold any value: compare in 64 bits,
+	// payloadSize + HeaderSize does not fit in 32 bits for sizes close to 2^32
+	expectSize := uint64(payloadSize) + uint64(v.HeaderSize)
 	// overflow checking
 	actualBufSize := bufSize - startFileOffset
-	if expectSize > actualBufSize {
+	if expectSize > uint64(actualBufSize) {
 		return payloadSize, previousCrc, payloadCrc,
 			errors.Wrapf(ErrOffsetOutOfBounds, "expected payload size: %d. actual buf size: %d ", expectSize, bufSize)
 	}
